@@ -374,6 +374,25 @@ def check_event_wait(ck, fi):
         g = lambda d: d.get(n.id, 0)
         return (min(2, s + g(c_set)), min(2, a + g(c_add)), min(2, r + g(c_rm)), min(2, w + g(c_wr)), min(2, c + g(c_ca)), ret_of.get(n.id, ret), ev, tn)
 
+    # a single exit through a result variable (`result = fut ... result = timeout_fut ... return result`): which future a
+    # plain local currently stands for is carried along each path and substituted at the return
+    _base_transfer = transfer
+
+    def transfer(n, v):  # noqa: F811
+        inner_, binds = v
+        inner_ = _base_transfer(n, inner_)
+        if n.kind == "stmt" and isinstance(n.ast, ast.Assign) and len(n.ast.targets) == 1 and isinstance(n.ast.targets[0], ast.Name):
+            d_ = dict(binds)
+            tgt_ = n.ast.targets[0].id
+            if isinstance(n.ast.value, ast.Name) and tgt_ not in (fut,) and tgt_ not in wrapvars:
+                d_[tgt_] = d_.get(n.ast.value.id, n.ast.value.id)
+            else:
+                d_.pop(tgt_, None)
+            binds = frozenset(d_.items())
+        if n.kind == "stmt" and isinstance(n.ast, ast.Return) and isinstance(n.ast.value, ast.Name) and n.ast.value.id in dict(binds):
+            inner_ = inner_[:5] + (dict(binds)[n.ast.value.id],) + inner_[6:]
+        return (inner_, binds)
+
     tfact = "%s is None" % tparam
 
     def edge(n, kind, v):
@@ -397,7 +416,14 @@ def check_event_wait(ck, fi):
 
     if q.stores_to(fi.node, EV) or q.stores_to(fi.node, tparam):
         raise AnalysisError("%s: wait rebinds the event value or its timeout" % fi.site())
-    normal, _ = exit_states(cfg, (0, 0, 0, 0, 0, None, None, None), transfer, edge_transfer=edge)
+    _base_edge = edge
+
+    def edge(n, kind, v):  # noqa: F811
+        inner_ = _base_edge(n, kind, v[0])
+        return None if inner_ is None else (inner_, v[1])
+
+    normal, _ = exit_states(cfg, ((0, 0, 0, 0, 0, None, None, None), frozenset()), transfer, edge_transfer=edge)
+    normal = sorted({(f_, v_[0]) for f_, v_ in normal}, key=repr)
     ck.floor("C34.event-wait", len(normal), 3, "normal exit states of Event.wait")
     for _facts, (s, a, r, w, c, ret, ev, tn) in normal:
         facts = {(EV, ev)} | {(tfact, tn)}
@@ -515,7 +541,7 @@ def check_timer_removed(ck, rule, fi):
 
 def run(ck):
     ck._orig_repo = getattr(ck, "_orig_repo", None) or ck.repo
-    ck.repo = normalized(ck.repo, NORM_MODULES)  # alias / named-boolean / temporary / setter-helper normalisation (vt/x_syncnorm.py)
+    ck.repo = normalized(ck.repo, NORM_MODULES, only=('tornado/locks.py', 'tornado/gen.py'))  # alias / named-boolean / temporary / setter-helper normalisation (vt/x_syncnorm.py)
     ck.rule("C34.cond-wait", "Condition.wait queues one fresh future at the tail, returns it, never settles it itself")
     ck.rule("C34.cond-timeout", "Condition.wait arms one timer iff a timeout was given; its callback resolves a live waiter with False exactly once, never True")
     ck.rule("C34.notify-ts", "Condition.notify pops only while n != 0 and the queue is non-empty; a popped waiter is skipped only if done(), otherwise counted once against n and collected once")
